@@ -22,6 +22,10 @@ KILLS = {
     # the sender as the operand of conversions that are not address types
     'selfdestruct(payable(address(uint160(msg.sender))))': lambda b: b.call(b.var('selfdestruct'), [b.call(b.ty('Payable'), [b.call(b.ty('Address'), [b.call(b.ty('Uint', 160), [sender(b)])])])]),
     'selfdestruct(address(bytes20(msg.sender)))': lambda b: b.call(b.var('selfdestruct'), [b.call(b.ty('Address'), [b.call(b.ty('Bytes', 20), [sender(b)])])]),
+    # the deprecated spelling with the sender in its own arguments (the two sites that recognise the call must agree on both names)
+    'suicide(msg.sender)': lambda b: b.call(b.var('suicide'), [sender(b)]),
+    'suicide(payable(msg.sender))': lambda b: b.call(b.var('suicide'), [b.call(b.ty('Payable'), [sender(b)])]),
+    'suicide(address(uint160(msg.sender)))': lambda b: b.call(b.var('suicide'), [b.call(b.ty('Address'), [b.call(b.ty('Uint', 160), [sender(b)])])]),
     'x.selfdestruct(owner)': lambda b: b.call(b.member(b.var('x'), 'selfdestruct'), [b.var('owner')]),
 }
 GUARDS = {
@@ -205,7 +209,9 @@ def body(chk):
         two = [c for c in combos if c[5] in SHAPES[4:] and c[1] == 'public']
         sev = [c for c in several if c[1] != 'internal' and c[2] != 'onlyOwner']
         chk.rng.shuffle(sev)
-        combos = keep[:250] + combos[:400] + two[:90] + sev[:60]
+        # fixed core, independent of the seed: every kill with every guard in a public function without modifiers
+        core = [('Function', 'public', None, kill, guard, 'guard_then_kill', 'contract') for kill, guard in itertools.product(KILLS, GUARDS)]
+        combos = core + keep[:250] + combos[:400] + two[:90] + sev[:60]
     for k in range(0, len(combos), 80):
         items.append(('selfdestruct', combos[k:k + 80]))
     pragmas = [(i, v, p) for i in ('solidity', 'experimental', 'abicoder')
